@@ -88,12 +88,14 @@ def m3(ck, em, rng, count):
                 if unlimited:
                     fcap, tcap = None, -1
         with time_limit(20):
-            final = gt.fit(gt.new_machine(em, init, fcap, thr, sw), X, chunks)
+            # every third thresholded run on a machine that was built as a MAP machine and switched to ML through
+            # set_params: it must return the very model of the plain machine's capped run
+            final = gt.fit(gt.new_machine(em, init, fcap, thr, sw, switched=(t % 3 == 2)), X, chunks)
         tr = gt.build_trace("gmm-ml", ms, A, X, cap, thr, final)
         tr["cap"] = tcap
         trs.append(tr)
         meta.append({"seed": seed, "n": len(X), "d": X.shape[1], "C": len(init["weights"]), "switches(um,uv,uw)": sw,
-                     "cap": fcap, "thr": thr, "placed": placed, "chunks": chunks, "avg_loglik": A})
+                     "cap": fcap, "thr": thr, "placed": placed, "chunks": chunks, "trainer_set_after_construction": t % 3 == 2, "avg_loglik": A})
     verdicts = traces.validate(ck, "gmmml", ck.work, trs)
     for tr, me, (v, pos) in zip(trs, meta, verdicts):
         ck.replayed += 1
